@@ -62,7 +62,7 @@ claim("C19", "DESIGN.md section 4 C19",
 claim("C20", "DESIGN.md section 4 C20 + section 11",
       "proof: ast.dump (CPython 3.12 defaults) transcribed over raw node trees and proved injective at character level on well-formed trees (dump_injective); "
       "hash equality <=> structural equality, the 'only if' direction relative to md5 injectivity on the two dumps; independence from non-field attributes at every depth "
-      "and single-edit sensitivity proved; float/complex are opaque repr tokens; Unicode printability universally quantified. Model dump compared with ast.dump character "
+      "and single-edit sensitivity proved; the bytes hashed are the UTF-8 encoding of the dump, proved injective (utf8_injective), and the hash is defined exactly when the dump has no lone surrogate (hash_defined_iff; F47 - it used to raise on every character above U+00FF); float/complex are opaque repr tokens; Unicode printability universally quantified. Model dump compared with ast.dump character "
       "for character, model hash with calc_ast_hash.",
       "md5 collision-freedom is assumed, not proved; ints below CPython's 4300-digit str limit; calc_ast_hash raises ValueError for dumps with code points above 255 "
       "(modelled as None, judged outside the property).")
